@@ -161,7 +161,9 @@ pub fn no_panic<T>(f: impl FnOnce() -> T) -> Option<T> {
 }
 
 pub fn quiet_panics() {
-    std::panic::set_hook(Box::new(|_| {}));
+    if std::env::var("VERIF_LOUD").is_err() {
+        std::panic::set_hook(Box::new(|_| {}));
+    }
 }
 
 pub const PANIC: [i128; 1] = [-1];
